@@ -295,6 +295,13 @@ func (c *FSContext) Renumber(from, to int32) sys.Errno {
 		return sys.ENOTSUP
 	}
 
+	// Renumbering a descriptor onto itself is a no-op. Without this, the file
+	// would be closed below as the "already open" target and then re-inserted,
+	// leaving a descriptor in the table whose file is closed.
+	if from == to {
+		return 0
+	}
+
 	// If toFile is already open, we close it to prevent windows lock issues.
 	//
 	// The doc is unclear and other implementations do nothing for already-opened To FDs.
